@@ -315,3 +315,26 @@ Example C11_delimiter_nonvacuous :
   /\ follow_delim (S (length names)) names [101; 47]%N [47]%N [] 1
      = [mkLpage [] [[101; 47; 47]%N] (Some [101; 47; 47]%N); mkLpage [[101; 47; 122]%N] [] None].
 Proof. exact paginate_with_delimiter_example. Qed.
+
+(* GCS-18 repaired: every name a listing can have to put into a page token is valid UTF-8 (the token
+   is a proto3 string field, whose encoder refuses anything else): no object of any state reachable
+   through the name check in front of the handlers (Wire.v) has another name — every program, no guard *)
+From Emu.Common Require Import Utf8.
+From Emu.GCS Require Import Wire WireProofs.
+Theorem C11_reachable_names_utf8 : forall rs b bk n o,
+  get_bucket (fst (run_wire init_state rs)) b = Some bk -> In (n, o) bk -> utf8_valid n = true.
+Proof. exact wire_reachable_names_utf8. Qed.
+Print Assumptions C11_reachable_names_utf8.
+
+(* run_wire is a run of the handlers, so the listing theorems above (stated for every state reachable
+   by [run]) cover it *)
+Theorem C11_run_wire_is_run : forall s rs, run_wire s rs = run s (map sanitize rs).
+Proof. exact run_wire_is_run. Qed.
+Print Assumptions C11_run_wire_is_run.
+
+(* the behaviour before the repair, on the handlers alone: an upload stores a name that is not valid UTF-8 *)
+Theorem C11_unchecked_upload_stores_invalid_name :
+  exists bk o, get_bucket (fst (run init_state [RUploadMedia [98]%N bad_name_witness [] [120]%N no_cparams])) [98]%N = Some bk
+               /\ In (bad_name_witness, o) bk /\ utf8_valid bad_name_witness = false.
+Proof. exact unchecked_upload_stores_invalid_name. Qed.
+Print Assumptions C11_unchecked_upload_stores_invalid_name.
